@@ -79,6 +79,9 @@ def cases(tier, seed):
     out.append({"k": "misc", "wide": True})
     out.append({"k": "misc", "magnitudes": True})
     out.append({"k": "misc", "twins": True})
+    for i in range(len(space.dense_specs())):
+        out.append({"k": "lead", "dense": i})
+        out.append({"k": "misc", "dense": i})
     return out
 
 
@@ -93,6 +96,8 @@ def prekey(el, names, graded, reverse):
 def run_case(case, R):
     if case.get("wide"):
         items = [(tuple(sp["n"]), tuple(sp["s"]), i, sp["d"], sp) for i, (_, sp) in enumerate(space.wide_specs() + space.wide_array_specs())]
+    elif "dense" in case:
+        items = [(tuple(sp["n"]), tuple(sp["s"]), lab_, sp["d"], sp) for lab_, sp in space.dense_specs()[case["dense"]:case["dense"] + 1]]
     elif case.get("magnitudes"):
         items = [(tuple(sp["n"]), tuple(sp["s"]), i, sp["d"], sp) for i, sp in enumerate(space.magnitude_specs())]
     elif case.get("twins"):
